@@ -416,6 +416,11 @@ func (g *G) CCFB() V {
 			ms[j] = g.MB()
 		}
 		bs[i] = V{"media": g.U32(), "begin": g.Pick(0, 1, 65530, 65534, 65535, g.R.Intn(65536)), "mbs": ms}
+		if i > 0 && g.R.Intn(3) == 0 {
+			// the same stream continued: same source, the sequence range starts where the previous block's ends
+			prev := bs[i-1].(V)
+			bs[i] = V{"media": prev["media"], "begin": (prev["begin"].(int) + len(prev["mbs"].(L))) % 65536, "mbs": ms}
+		}
 	}
 	return V{"k": "CCFB", "sender": g.U32(), "blocks": bs, "ts": g.U32()}
 }
